@@ -58,10 +58,7 @@ Record acc := mkAcc {
   a_w : world; a_s : list Z * list Z;
   a_agree : bool;          (* implementation = model so far *)
   a_contents : bool;       (* implementation contents/sizes = std::vector (list spec and the C++ twin) so far *)
-  a_pos : bool;            (* returned positions = std::vector so far, on operations outside the erase domain *)
-  a_pos_erase : bool;      (* returned positions = std::vector so far, on shifting erases *)
-  a_dom_erase : bool;      (* a shifting erase occurred *)
-  a_dom_insert : bool;     (* a single-element insert occurred *)
+  a_pos : bool;            (* returned positions / values = std::vector so far *)
   a_pre : bool;
   a_first : Z; a_idx : Z
 }.
@@ -84,15 +81,11 @@ Definition judge_step (tr : traits) (a : acc) (x : (bool * op) * stepobs) : acc 
     zlist_eqb (world_obs w' ++ [0]) (o_led ob) && (cl_bad (wl w') =? 0) in
   let contents :=
     zlist_eqb self_s' (o_self ob) && (negb (o_two ob) || zlist_eqb other_s' (o_other ob)) && (o_stdok ob =? 1) in
-  let shifting := op_erase_shifts self_s o in
   let posok := (sret =? o_ret ob) && (negb (has_std_ret o) || (sret =? o_stdret ob)) in
   mkAcc w' s'
-    (a_agree a && agree) (a_contents a && contents)
-    (a_pos a && (shifting || posok)) (a_pos_erase a && (negb shifting || posok))
-    (a_dom_erase a || shifting) (a_dom_insert a || op_insert_single o) (a_pre a && pre)
+    (a_agree a && agree) (a_contents a && contents) (a_pos a && posok) (a_pre a && pre)
     (if a_agree a && negb agree then a_idx a else a_first a) (a_idx a + 1).
 
-Definition sum_z (l : list Z) : Z := fold_left Z.add l 0.
 (* balanced lifetimes on the numbers the implementation printed at the very end:
    cv cc cm ac am d live moved e0..e4 misaligned *)
 Definition life_ok_obs (l : list Z) : bool :=
@@ -102,29 +95,24 @@ Definition life_ok_obs (l : list Z) : bool :=
   | _ => false
   end.
 
-(* [verdict; agree; contents; positions outside the erase domain; positions on shifting erases; lifetimes;
-    shifting erase present; single insert present; preconditions; first disagreeing step (-1 none, -2 header, -3 final)]
+(* [verdict; agree; contents; positions; lifetimes; preconditions; first disagreeing step (-1 none, -2 header, -3 final)]
    verdict 0: implementation = model and C32 holds on the implementation's output
            1: C32 holds on the output but implementation <> model
-           2: C32 fails on the output and the failure is not exactly the modelled (known) behaviour
-           3: C32 fails on the output, the model predicts exactly this output, and the failing part lies in the
-              domain of the modelled defects (shifting erase: return value, undestroyed tail; single insert) *)
+           2: C32 fails on the implementation's output (contents / sizes / a returned position differ from std::vector,
+              or the element lifetimes are not balanced, or blocks leaked) *)
 Definition judge_case (c : ccase) : list Z :=
   let tr := trait_set (k_ts c) in
   let hdr := (first_shift tr (Z.quot (t_defcap tr) 2) =? k_shift0 c) && (max_buffers tr =? k_maxbuf c) in
-  let a0 := mkAcc (world0 tr) ([], []) true true true true false false true (-1) 0 in
+  let a0 := mkAcc (world0 tr) ([], []) true true true true (-1) 0 in
   let a := fold_left (judge_step tr) (combine (k_ops c) (k_steps c)) a0 in
   let lens := (length (k_ops c) =? length (k_steps c))%nat in
   let Lf := finish tr (a_w a) in
   let fin_agree := zlist_eqb (final_obs Lf ++ [0]) (k_final c) && (cl_bad Lf =? 0) in
   let agree := hdr && lens && a_agree a && fin_agree in
   let life := life_ok_obs (k_final c) && (k_refbal c =? 1) && (k_balloc c =? k_bfree c) in
-  let prop := a_contents a && a_pos a && a_pos_erase a && life in
-  let explained := a_contents a && a_pos a && (a_pos_erase a || a_dom_erase a) && (life || a_dom_erase a || a_dom_insert a)
-                   && (k_refbal c =? 1) && (k_balloc c =? k_bfree c) in
-  let verdict := if prop then (if agree then 0 else 1) else if agree && explained then 3 else 2 in
-  [verdict; b2z agree; b2z (a_contents a); b2z (a_pos a); b2z (a_pos_erase a); b2z life;
-   b2z (a_dom_erase a); b2z (a_dom_insert a); b2z (a_pre a);
+  let prop := a_contents a && a_pos a && life in
+  let verdict := if prop then (if agree then 0 else 1) else 2 in
+  [verdict; b2z agree; b2z (a_contents a); b2z (a_pos a); b2z life; b2z (a_pre a);
    if negb hdr then -2 else if negb (a_agree a) then a_first a else if negb fin_agree then -3 else -1].
 
 (* the model's own line for a case (debugging aid for the check: what the model expected at step i) *)
